@@ -148,6 +148,10 @@ func runC09(c *Ctx) {
 		send := c.one(f, false, "ccv.SendIBCPacket")
 		if send != nil {
 			permitted := ABool("PacketSendingPermitted()", PCall("ck.Keeper.PacketSendingPermitted", -1, nil))
+			port, _ := c.StringConst("ccv.ConsumerPortID")
+			gotPort, isC := constString(arg(send, 3))
+			c.Check(isC && gotPort == port && PCall("ck.Keeper.GetProviderChannel", 0, nil)(arg(send, 2)) && PCall("ck.Keeper.GetCCVTimeoutPeriod", -1, nil)(arg(send, 5)), fk(f, "channel-port-timeout"), send,
+				"sent on the recorded provider channel from the consumer port with the CCV timeout period; found "+describe(arg(send, 2))+", "+describe(arg(send, 3))+", "+describe(arg(send, 5)))
 			// per-iteration guard: cut the hold edges; send must be unreachable from the loop head too
 			c.GuardedBy(send, fk(f, "permitted-before-send"), permitted)
 			gs := ifsTesting(f, permitted.Fn)
